@@ -624,4 +624,119 @@ theorem binArea_pos (hv : I.Valid) : 1 ≤ I.W * I.H := by
 
 end ties
 
+
+theorem minOver_one (f : Int → Int) : minOver f 1 = f 1 := by
+  simp [minOver, List.range_succ]
+
+theorem scale_pos (o : Obj) {I : Inst} (hv : I.Valid) : 1 ≤ scale o I := by
+  cases o <;> simp only [scale]
+  · omega
+  all_goals first | exact Inst.nItems_pos I hv | exact binArea_pos hv
+
+/-! ### exactly when the scratch loop leaves the array -/
+theorem idx?_eq_none (len : Nat) (i : Int) :
+    idx? len i = none ↔ ¬ (-(len : Int) ≤ i ∧ i < len) := by
+  unfold idx?
+  split
+  · simp; omega
+  · split
+    · simp; omega
+    · simp; omega
+
+theorem idx?_some_lt (len : Nat) (i : Int) (j : Nat) (h : idx? len i = some j) : j < len := by
+  unfold idx? at h
+  split at h
+  · simp at h; omega
+  · split at h
+    · simp at h; omega
+    · simp at h
+
+theorem addAt_length (temp temp' : List Int) (i v : Int) (h : addAt temp i v = .ok temp') :
+    temp'.length = temp.length := by
+  unfold addAt at h
+  split at h
+  · simp at h
+  · split at h
+    · simp at h
+    · simp at h; subst h; simp
+
+theorem accLoop_error_iff (wt : Row → Int) (rows : List Row) (temp : List Int) (tb : Int) :
+    (∀ e, accLoop wt rows temp tb = .error e → e = .oob) ∧
+    ((∃ e, accLoop wt rows temp tb = .error e) ↔ ∃ a ∈ rows, idx? temp.length (a.bin - 1) = none) := by
+  induction rows generalizing temp tb with
+  | nil => simp [accLoop]
+  | cons a t ih =>
+    simp only [accLoop]
+    cases hi : idx? temp.length (a.bin - 1) with
+    | none =>
+      simp only [addAt, hi]
+      exact ⟨fun e he => by cases he; rfl, ⟨fun _ => ⟨a, by simp, hi⟩, fun _ => ⟨_, rfl⟩⟩⟩
+    | some j =>
+      have hj := idx?_some_lt _ _ _ hi
+      have hadd : addAt temp (a.bin - 1) (wt a) = .ok (temp.set j (temp[j] + wt a)) := by
+        simp [addAt, hi, List.getElem?_eq_getElem hj]
+      rw [hadd]
+      simp only []
+      obtain ⟨ih1, ih2⟩ := ih (temp.set j (temp[j] + wt a)) (max tb (a.bin - 1))
+      refine ⟨ih1, ?_⟩
+      rw [ih2]
+      simp only [List.length_set]
+      constructor
+      · rintro ⟨c, hc, h⟩; exact ⟨c, List.mem_cons_of_mem _ hc, h⟩
+      · rintro ⟨c, hc, h⟩
+        rcases List.mem_cons.mp hc with h' | h'
+        · subst h'; rw [hi] at h; cases h
+        · exact ⟨c, h', h⟩
+
+theorem sliceMin_not_oob (temp : List Int) (stop : Int) : sliceMin temp stop ≠ .error .oob := by
+  unfold sliceMin; split <;> simp
+
+theorem binCountAndEmpty_oob_iff (rows : List Row) (temp : List Int) :
+    binCountAndEmpty rows temp = .error .oob ↔
+      ∃ a ∈ rows, ¬ (-(temp.length : Int) ≤ a.bin - 1 ∧ a.bin - 1 < temp.length) := by
+  have h := accLoop_error_iff (fun _ => 1) rows (fill0 temp) (-1)
+  rw [fill0_length] at h
+  simp only [idx?_eq_none] at h
+  unfold binCountAndEmpty
+  cases hacc : accLoop (fun _ => 1) rows (fill0 temp) (-1) with
+  | error e =>
+    have := h.1 e hacc
+    subst this
+    simp only [true_iff]
+    exact h.2.mp ⟨_, hacc⟩
+  | ok st =>
+    obtain ⟨temp', tb⟩ := st
+    simp only []
+    have hno : ¬ ∃ a ∈ rows, ¬ (-(temp.length : Int) ≤ a.bin - 1 ∧ a.bin - 1 < temp.length) := by
+      intro hex
+      obtain ⟨e, he⟩ := h.2.mpr hex
+      rw [hacc] at he; cases he
+    simp only [hno, iff_false]
+    have := sliceMin_not_oob temp' (tb + 1)
+    split <;> simp_all
+
+theorem binCountAndSmall_oob_iff (rows : List Row) (binArea : Int) (temp : List Int) :
+    binCountAndSmall rows binArea temp = .error .oob ↔
+      ∃ a ∈ rows, ¬ (-(temp.length : Int) ≤ a.bin - 1 ∧ a.bin - 1 < temp.length) := by
+  have h := accLoop_error_iff rarea rows (fill0 temp) 0
+  rw [fill0_length] at h
+  simp only [idx?_eq_none] at h
+  unfold binCountAndSmall
+  cases hacc : accLoop rarea rows (fill0 temp) 0 with
+  | error e =>
+    have := h.1 e hacc
+    subst this
+    simp only [true_iff]
+    exact h.2.mp ⟨_, hacc⟩
+  | ok st =>
+    obtain ⟨temp', tb⟩ := st
+    simp only []
+    have hno : ¬ ∃ a ∈ rows, ¬ (-(temp.length : Int) ≤ a.bin - 1 ∧ a.bin - 1 < temp.length) := by
+      intro hex
+      obtain ⟨e, he⟩ := h.2.mpr hex
+      rw [hacc] at he; cases he
+    simp only [hno, iff_false]
+    have := sliceMin_not_oob temp' (tb + 1)
+    split <;> simp_all
+
 end BinObj
